@@ -41,6 +41,7 @@ type recorder struct {
 	requests []reqRec
 	tlsAddr  string
 	httpAddr string
+	pool     *x509.CertPool // trusts the CA of the local TLS server
 }
 
 func (r *recorder) reset() {
@@ -75,10 +76,10 @@ func (r *recorder) handler(scheme string) http.Handler {
 		r.requests = append(r.requests, reqRec{Scheme: scheme, Host: req.Host, Method: req.Method, Path: req.URL.Path})
 		r.mu.Unlock()
 		switch {
-		case strings.HasPrefix(req.URL.Path, "/redir302"):
+		case strings.Contains(req.URL.Path, "/redir302"):
 			w.Header().Set("Location", "http://"+hostOnly(req.Host)+"/landing")
 			w.WriteHeader(http.StatusFound)
-		case strings.HasPrefix(req.URL.Path, "/redir307"):
+		case strings.Contains(req.URL.Path, "/redir307"):
 			w.Header().Set("Location", "http://"+hostOnly(req.Host)+"/landing")
 			w.WriteHeader(http.StatusTemporaryRedirect)
 		case strings.HasPrefix(req.URL.Path, "/ctx/"):
@@ -189,6 +190,7 @@ func startNetwork(t *testing.T) *recorder {
 
 	pool := x509.NewCertPool()
 	pool.AddCert(ca.cert)
+	rec.pool = pool
 	tr := client.SafeHttpTransport.Clone()
 	tr.DialContext = rec.dial
 	tr.Proxy = nil
